@@ -119,6 +119,93 @@ EntryParse(leafInput, extraData) ==
   ELSE LET x == Complete(IF EntryTypeOf(l) = N(PrecertEntryType) THEN PrecertChainEntry ELSE CertificateChain, extraData) IN
        IF x.ok THEN [ok |-> TRUE, leaf |-> l.v, extra |-> x.v] ELSE [ok |-> FALSE, leaf |-> VNone, extra |-> VNone]
 
+(* ---------- 4.6 / 3.1: the entry points that build the stored leaf of a log entry ---------- *)
+\* A log keeps, per entry, leaf_input (the MerkleTreeLeaf) and extra_data.  What get-entries serves as
+\* extra_data is CertificateChain (x509_entry) / PrecertChainEntry (precert_entry) for EVERY chain, the empty one
+\* included: a lone certificate (a trusted root logged on its own) has certificate_chain<0..2^24-1> of length 0,
+\* i.e. the three bytes 00 00 00.  The repository has four sibling builders of extra_data:
+\*   ExtraDataForChain, BuildLogLeaf                    the RFC structures
+\*   ExtraDataForChainHash, BuildLogLeafWithChainHash   the storage-private hash references
+\* Named clause ChainHashStore (not in the RFC): a log that keeps issuance chains in a side store writes, in place
+\* of the chain, opaque issuance_chain_hash<0..256> - alone for an x509 entry, after pre_certificate for a precert.
+\* Named clause NoHashNoReference: BuildLogLeafWithChainHash without a hash (nil) has nothing to refer to and writes
+\* the RFC structure with an empty chain (the documented selector of buildLogLeaf: "chainHash controls ...").
+IssuanceChainHash == Vec(N(0), N(256), Byte)
+CertificateChainHash == Struct(<<Field("issuance_chain_hash", IssuanceChainHash)>>)
+PrecertChainEntryHash == Struct(<<Field("pre_certificate", ASN1Cert), Field("issuance_chain_hash", IssuanceChainHash)>>)
+EncExtraRFC(isPre, cert, certs) == IF isPre THEN EncPrecertChainEntry(cert, certs) ELSE EncCertificateChain(certs)
+EncExtraHash(isPre, cert, h) == IF isPre THEN Enc(PrecertChainEntryHash, VStruct(<<VBytes(cert), VBytes(h)>>))
+                                ELSE Enc(CertificateChainHash, VStruct(<<VBytes(h)>>))
+ChainBuilders == {"ExtraDataForChain", "BuildLogLeaf"}
+HashBuilders == {"ExtraDataForChainHash", "BuildLogLeafWithChainHash"}
+LeafBuilders == {"BuildLogLeaf", "BuildLogLeafWithChainHash"}     \* these also write leaf_input and the identity
+Builders == ChainBuilders \cup HashBuilders
+\* hash: [present |-> BOOLEAN, b |-> bytes]: the hash argument of the hash builders (absent = nil)
+ExtraForm(builder, hash) == IF builder \in ChainBuilders THEN "rfc"
+                            ELSE IF builder = "BuildLogLeafWithChainHash" /\ ~hash.present THEN "rfc"   \* NoHashNoReference
+                            ELSE "hash"
+\* the chain argument exists for the chain builders only
+ExtraDataOf(builder, isPre, cert, certs, hash) ==
+  IF ExtraForm(builder, hash) = "hash" THEN EncExtraHash(isPre, cert, hash.b)
+  ELSE EncExtraRFC(isPre, cert, IF builder \in ChainBuilders THEN certs ELSE <<>>)
+\* the stored leaf: leaf_input is the MerkleTreeLeaf, the identity (what duplicates are recognised by) is the
+\* certificate's bytes (the log hashes them with SHA-256), the index is passed through
+StoredLeaf(builder, l, isPre, cert, certs, hash) ==
+  LET lv == EncMerkleTreeLeaf(l)  x == ExtraDataOf(builder, isPre, cert, certs, hash) IN
+  IF x.ok /\ (builder \in LeafBuilders => lv.ok)
+  THEN [ok |-> TRUE, leaf_value |-> IF builder \in LeafBuilders THEN lv.b ELSE <<>>, extra_data |-> x.b, identity |-> cert]
+  ELSE [ok |-> FALSE, leaf_value |-> <<>>, extra_data |-> <<>>, identity |-> <<>>]
+\* law: whatever an RFC-form builder stores is what an RFC client reads back (complete parse of both parts; the
+\* chain it finds is the chain that was passed, the empty chain included)
+ChainOfExtra(isPre, xv) == IF isPre THEN xv.x[2] ELSE xv
+ServedReadsBack(builder, l, isPre, cert, certs, hash) ==
+  LET s == StoredLeaf(builder, l, isPre, cert, certs, hash) IN
+  (s.ok /\ ExtraForm(builder, hash) = "rfc") =>
+     LET x == Complete(IF isPre THEN PrecertChainEntry ELSE CertificateChain, s.extra_data) IN
+     /\ x.ok /\ ValEq(ChainOfExtra(isPre, x.v), ChainVal(IF builder \in ChainBuilders THEN certs ELSE <<>>))
+     /\ (isPre => ValEq(x.v.x[1], VBytes(cert)))
+     /\ (builder \in LeafBuilders /\ l.leaf_type = 0 /\ (l.entry.etype = PrecertEntryType) = isPre /\ l.entry.etype \in {0, 1}
+           => EntryParse(s.leaf_value, s.extra_data).ok)
+\* law: the two forms never coincide for an x509 entry (3-byte against 2-byte prefix): no reader can take one for
+\* the other by accident when the chain / hash is empty
+FormsDiffer(cert) == ~BytesEq(EncExtraRFC(FALSE, cert, <<>>).b, EncExtraHash(FALSE, cert, <<>>).b)
+
+\* The log front end reaches the builders through its issuance-chain service: "direct" (chains in extra_data:
+\* BuildLogLeaf with the tail of the validated chain, which is empty for a lone trusted root) or "indirect" (chains
+\* in a side store: BuildLogLeafWithChainHash with the key the store gave).  Named clause ServedIsRFC: whatever the
+\* store keeps, what get-entries serves as extra_data is the RFC structure with the whole chain (4.6).
+FrontEndModes == {"direct", "indirect"}
+FrontEndBuilder(mode) == IF mode = "direct" THEN "BuildLogLeaf" ELSE "BuildLogLeafWithChainHash"
+StoredForm(mode) == ExtraForm(FrontEndBuilder(mode), [present |-> TRUE, b |-> <<>>])
+ServedForm(mode) == "rfc"
+
+(* ---------- 3.3: the entry points that read an SCT list ---------- *)
+\* The list of 3.3 travels as the content of an OCTET STRING that is the value of the X.509v3 extension
+\* 1.3.6.1.4.1.11129.2.4.2 (and of the OCSP / TLS extensions).  Every entry point that hands SCTs (or the list) out
+\* of a certificate promises a complete parse: the extension value is exactly one OCTET STRING, its content exactly
+\* one SignedCertificateTimestampList (<1..2^16-1>: never empty), and - where SCTs are handed out - every element
+\* exactly one SignedCertificateTimestamp.  wrap: how the list sits in the extension value
+\*   "octet"        one OCTET STRING holding the bytes            "octet+trail"  the same followed by a byte
+\*   "notoctet"     the bytes under another tag (SEQUENCE)         "absent"       the certificate has no such extension
+Wraps == {"octet", "octet+trail", "notoctet", "absent"}
+ElemsOk(lv) == [i \in 1..Len(lv.x) |-> Complete(SCT, lv.x[i].x).ok]
+SCTsOfListVal(lv) == IF \A i \in 1..Len(lv.x) : Complete(SCT, lv.x[i].x).ok
+                     THEN [ok |-> TRUE, v |-> VList([i \in 1..Len(lv.x) |-> Complete(SCT, lv.x[i].x).v])]
+                     ELSE [ok |-> FALSE, v |-> VNone]
+\* the list an entry point of the certificate parser family hands out without any error
+ListFromCert(wrap, b) ==
+  CASE wrap = "absent" -> [ok |-> TRUE, v |-> VList(<<>>)]
+    [] wrap = "octet" -> LET l == Complete(SCTList, b) IN [ok |-> l.ok, v |-> l.v]
+    [] OTHER -> [ok |-> FALSE, v |-> VNone]
+\* the SCTs an entry point hands out
+SCTsFromCert(wrap, b) == LET l == ListFromCert(wrap, b) IN IF l.ok THEN SCTsOfListVal(l.v) ELSE [ok |-> FALSE, v |-> VNone]
+\* law: nothing is handed out of bytes that are not one complete list of complete SCTs, and what is handed out
+\* re-encodes to exactly the bytes that were read (no tail is dropped silently)
+NoSilentTail(wrap, b) ==
+  LET s == SCTsFromCert(wrap, b) IN
+  (s.ok /\ wrap = "octet") =>
+     LET again == EncSCTList([i \in 1..Len(s.v.x) |-> Enc(SCT, s.v.x[i]).b]) IN again.ok /\ BytesEq(again.b, b)
+
 (* ---------- JSON messages (4.1, 4.3): the structures travel in base64 fields ---------- *)
 \* add-chain response: [sct_version, id, timestamp, extensions, signature]: id / extensions / signature are the
 \* bytes inside the base64 fields; signature is a serialized DigitallySigned
